@@ -15,7 +15,8 @@ LEVEL = "exploration"
 RULE = ("generated .itp texts: 1..60 atoms (quick) / ..400 (thorough) plus chains and stars of 1500 and 3000 atoms; "
         "trees, chains, stars, forests, cyclic graphs, duplicated bonds; strictly increasing atom numbers with random "
         "start and gaps; bonds spread over [bonds]/[constraints]/[pairs], possibly with one of them occurring twice; "
-        "bond lines with 2..6 fields; comment, blank, #include/#ifdef/#endif lines, trailing comments, tabs and "
+        "bond lines with 2..6 fields; comment, blank, #include/#ifdef/#endif lines, trailing comments (also comments that "
+        "contain bracketed words such as '; b0 [nm]' or ';[ bonds ]'), tabs and "
         "multiple blanks; other sections (angles, dihedrals, exclusions) between them; 1..4 residues; (rewrite) one path "
         "holding two different topologies of exactly the same byte size one after the other (and back), with equal or "
         "free modification times. Non-trivial = "
@@ -48,6 +49,9 @@ def render(name, atoms, numbers, edges, sections, rng, style):
             out.append("   ; indented comment")
         elif k == 4:
             out.append('#include "other.itp"')
+        elif k == 5:
+            out.append(str(rng.choice(["; b0 [nm]  kb [kJ]", ";[ exclusions ]", "; see ref. [12]", " ; [ bonds ] kept for reference",
+                                       ";[pairs]"])))
 
     out = []
     if style["header"]:
@@ -68,7 +72,7 @@ def render(name, atoms, numbers, edges, sections, rng, style):
         if style["lead"]:
             line = "   " + line
         if style["noise"] and rng.random() < 0.2:
-            line += " ; qtot 0.%d" % k
+            line += str(rng.choice([" ; qtot 0.%d" % k, " ; charge in [e]", " ;[ atoms ]"]))
         out.append(line)
     out.append("")
     others = [("angles", 3), ("dihedrals", 4), ("exclusions", 2), ("dihedrals", 4)]
@@ -95,7 +99,7 @@ def render(name, atoms, numbers, edges, sections, rng, style):
             if style["lead"]:
                 line = "  " + line
             if style["noise"] and rng.random() < 0.2:
-                line += " ; bond"
+                line += str(rng.choice([" ; bond", " ; b0 in [nm]", " ; [ bonds ]"]))
             out.append(line)
         out.append("")
     text = "\n".join(out)
